@@ -299,7 +299,8 @@ def check_laws(v, U, impl, model, prop):
                     c1 = resolve_max(mx, a, b)
                     c2 = resolve_max(mx2, b, a)
                     if c1 != c2:
-                        v.failing("max-order-dependent", payload("max_comm", max_ab=c1, max_ba=c2))
+                        v.failing("max-order-dependent:known-order-class" if model.extra[ia][ib][2:3] == "1"
+                                  else "max-order-dependent", payload("max_comm", max_ab=c1, max_ba=c2))
             else:
                 if nominal[ia] and fit == "1":
                     stats["nominal_accepted"] += 1
@@ -339,10 +340,26 @@ SRC_TYPES = [
     ("^i32", "P 0 i32"), ("^D1", "P 0 D 1 i32"), ("distinct'x", None),
 ]
 SRC_TYPES = [(s, m) for s, m in SRC_TYPES if m is not None]
-POSITIONS = ["annotation", "argument", "return", "if_else", "else_if"]
+# untyped literals as provided values (C13's admitted exception): (expression, model type)
+LITERALS = [("lit:5", "u0"), ("lit:1.5", "f0"), ("lit:.[1, 2]", "AA 2 u0")]
+POSITIONS = ["annotation", "argument", "return", "assignment", "compound_add", "binary_add", "binary_eq",
+             "if_else", "else_if"]
 
 
 def program(pos, exp_src, prov_src):
+    p = _program(pos, exp_src, "i32" if prov_src.startswith("lit:") else prov_src)
+    if prov_src.startswith("lit:"):
+        # use the literal instead of the parameter v (v stays declared, unused)
+        lit = prov_src[4:]
+        head, _, body = p.rpartition("t :: ")
+        sig, brace, rest = body.partition("{")
+        rest = rest.replace(" v;", " %s;" % lit).replace("{ v }", "{ %s }" % lit).replace("f(v)", "f(%s)" % lit) \
+                   .replace(" v }", " %s }" % lit)
+        p = head + "t :: " + sig + brace + rest
+    return p
+
+
+def _program(pos, exp_src, prov_src):
     p = PRELUDE
     if pos == "annotation":
         p += "t :: (v : %s) { x : %s = v; }\n" % (prov_src, exp_src)
@@ -350,6 +367,14 @@ def program(pos, exp_src, prov_src):
         p += "f :: (p : %s) {}\nt :: (v : %s) { f(v); }\n" % (exp_src, prov_src)
     elif pos == "return":
         p += "t :: (v : %s) -> %s { v }\n" % (prov_src, exp_src)
+    elif pos == "assignment":
+        p += "t :: (v : %s, w : %s) { x := w; x = v; }\n" % (prov_src, exp_src)
+    elif pos == "compound_add":
+        p += "t :: (v : %s, w : %s) { x := w; x += v; }\n" % (prov_src, exp_src)
+    elif pos == "binary_add":
+        p += "t :: (v : %s, w : %s) { r := w + v; }\n" % (prov_src, exp_src)
+    elif pos == "binary_eq":
+        p += "t :: (v : %s, w : %s) { r := w == v; }\n" % (prov_src, exp_src)
     elif pos == "if_else":
         p += "t :: (v : %s, w : %s, c : bool) { r := if c { w } else { v }; }\n" % (prov_src, exp_src)
     elif pos == "else_if":
@@ -364,7 +389,7 @@ def classify_prog(out):
         return "ACCEPT"
     if out.startswith("diag:"):
         kinds = out[5:].split(",")
-        if any(k in ("ty.Mismatch", "ty.IfMismatch") for k in kinds):
+        if any(k in ("ty.Mismatch", "ty.IfMismatch", "ty.BinaryOpMismatch") for k in kinds):
             return "MISMATCH"
         if all(k.startswith("validation.") or k in ("ty.UnusedLocal",) for k in kinds):
             return "ACCEPT"
@@ -379,7 +404,7 @@ def run_stream_b(fl, drv, har, prop):
     cases = []
     for pos in POSITIONS:
         for es, em in SRC_TYPES:
-            for ps, pm in SRC_TYPES:
+            for ps, pm in SRC_TYPES + LITERALS:
                 cases.append((pos, es, em, ps, pm))
     progs = [program(pos, es, ps) for (pos, es, em, ps, pm) in cases]
     outs = C.run_lines([har, "prog"], [p.encode().hex() for p in progs], case_timeout=20)
@@ -388,10 +413,16 @@ def run_stream_b(fl, drv, har, prop):
     mlines = []
     for (pos, es, em, ps, pm) in cases:
         if pos in ("annotation", "argument"):
-            mlines.append("EM %s %s ; 0 ; %s ; %s" % (EN1, EN2, pm, em))
+            mlines.append("EM %s %s ; %d ; %s ; %s" % (EN1, EN2, 1 if ps == "lit:5" else 0, pm, em))
         elif pos == "return":
             # the body block of a function with a declared return type: expect_block_match, then expect_match
             mlines.append("ER %s %s ; %s ; %s" % (EN1, EN2, pm, em))
+        elif pos == "assignment":
+            mlines.append("ASSIGN %s %s ; %s ; %s" % (EN1, EN2, pm, em))
+        elif pos in ("compound_add", "binary_add"):
+            mlines.append("BIN %s %s ; add ; %s ; %s" % (EN1, EN2, em, pm))
+        elif pos == "binary_eq":
+            mlines.append("BIN %s %s ; eq ; %s ; %s" % (EN1, EN2, em, pm))
         elif pos == "if_else":
             mlines.append("PAIRS %s %s ; %s ; %s" % (EN1, EN2, em, pm))
         else:
@@ -409,17 +440,19 @@ def run_stream_b(fl, drv, har, prop):
         else:
             want = {"ACCEPT": "ACCEPT", "MISMATCH": "MISMATCH", "SILENT": "ACCEPT"}.get(mo, "PANIC" if mo.startswith("PANIC") else mo)
         hist[(pos, got)] = hist.get((pos, got), 0) + 1
-        if got != want:
+        reinfer_panic = got == "PANIC" and "is not weak replaceable by" in out
+        if got != want and not reinfer_panic:
             diffs += 1
             if first is None:
                 first = {"position": pos, "expected": es, "provided": ps, "program": prog,
                          "implementation": out, "model": mo}
         # direct oracle at program level
         if got == "PANIC":
-            cls = "program-panics:weak-not-fit" if "is_weak_replaceable_by" in out else "program-panics:other"
+            cls = ("program-panics:weak-not-fit" if "is_weak_replaceable_by" in out else
+                   "program-panics:reinfer-not-weak-replaceable" if reinfer_panic else "program-panics:other")
             v.failing(cls, {"key": "prog:%s:%s:%s" % (pos, es, ps), "position": pos, "expected": es,
                             "provided": ps, "program": prog, "implementation": out})
-        if prop == "C13" and pos in ("annotation", "argument", "return") and got == "ACCEPT":
+        if prop == "C13" and pos in ("annotation", "argument", "return", "assignment") and got == "ACCEPT":
             nominal_src = {"D1", "D2", "S1", "S2", "En1.A", "En2.A"}
             allowed = {("En1.A", "En1"), ("En2.A", "En2")}
             if ps in nominal_src and es != ps and (ps, es) not in allowed and es in (nominal_src | {"i32", "En1", "En2"}):
@@ -500,10 +533,12 @@ ASSUMPTIONS = [
     "Intern<Ty> equality = structural equality (internment); opaque keys (Name, FileName, locs, uids) modelled as N, only compared",
     "FxHashMap collect/get = association list with last-entry-wins lookup; iteration order irrelevant (no side effects in the loops)",
     "laws are stated for value types (no Unknown/NotYetResolved/AlwaysJumps inside): the relations treat those as wildcards on purpose",
-    "max_accepts_both (outside the known classes) and max order-independence are NOT proved in Coq: they are checked on the "
-    "implementation for every ordered pair of the universe (tested, not proved); refutation witnesses are proved",
-    "expect_match model covers the acceptance decision only (not the weak-type rewriting of expr_tys); assignment and binary-operator "
-    "positions of stream B are not generated",
+    "max_accepts_both / order independence are proved for all types outside the exact classes known_max / known_order "
+    "(Spec/TyLaws.v), which are also the run-time classifiers; wf_enum_map (set_enum_uid's own assertion) is a hypothesis",
+    "the re-inference pass after weak-type replacement (reinfer_expr / should_actually_replace) is not modelled: its panic "
+    "`X is not weak replaceable by Y` is reported as a failing input (known class), not as a model difference",
+    "expect_match / assignment / binary-operator models cover the acceptance decision only (not the weak-type rewriting of "
+    "expr_tys); binary operators are represented by `+` (arithmetic class) and `==` (equality class), compound assignment by `+=`",
 ]
 
 
